@@ -9,6 +9,7 @@ Being a Lean function, `accept` is pure by construction; that the Python objects
 -/
 import BBProofs.Merges
 import BBProofs.Fl
+import BBProofs.GenEq
 
 namespace BB
 
@@ -84,5 +85,77 @@ theorem C10_dispatch :
 /-! Non-vacuity: a pair the diameter criterion accepts at 1/2 (two identical fingerprints). -/
 example : accept ⟨.diameter, defaultTol⟩ ⟨fun _ => 1, 1⟩ (1/2) ⟨[2, 2, 0], 2⟩ ⟨[1, 1, 0], 1⟩ ⟨[1, 1, 0], 1⟩ = true := by
   decide +kernel
+
+/-! ## The same laws for the code itself
+
+`BBGen.get_merge_accept_fn` and the `*_call` functions are the Lean text that `tools/py2lean.py`
+wrote from `bblean/_merges.py`, `_py_similarity.py`, `similarity.py` on this run (statement by
+statement; Python / NumPy arithmetic is the algebra `PV` of `BBModel/PyNum.lean`).  `codeAccept` is
+"look the criterion up by name, call the object".  `expf` stands for `np.exp`; `SumOk` says the
+summary is one the tree can produce (sums ≤ count < 2^53, no division by zero). -/
+
+/-- `get_merge_accept_fn(name, tol)(thr, new_ls, new_n, old_ls, nom_ls, old_n, nom_n)` -/
+def codeAccept (expf : Rat → Rat) (name : String) (tol thr : Rat) (new old nom : Summary) (w w' w'' : W) : PV :=
+  callObj expf (BBGen.get_merge_accept_fn expf (PV.str name) (PV.flt (some tol))) (PV.flt (some thr))
+    (PV.arr w new.ls) (PV.int new.n) (PV.arr w' old.ls) (PV.arr w'' nom.ls) (PV.int old.n) (PV.int nom.n)
+
+/-- the translated code computes the model's `accept`, for every criterion, tolerance, threshold -/
+theorem C10_code_accept (expf : Rat → Rat) (c : Crit) (tol thr : Rat) (new old nom : Summary) (w w' w'' : W)
+    (hn : SumOk new) (ho : SumOk old) (hO : 1 ≤ old.n) :
+    codeAccept expf c.name tol thr new old nom w w' w''
+      = PV.bool (accept ⟨c, tol⟩ (tabOf expf) thr new old nom) := by
+  unfold codeAccept
+  rw [gen_dispatch, getMergeFn_name]
+  exact gen_accept expf ⟨c, tol⟩ thr new old nom w w' w'' hn ho hO
+
+/-- code: accepting at a threshold implies accepting at every lower one -/
+theorem C10_code_mono_thr (expf : Rat → Rat) (c : Crit) (tol t t' : Rat) (new old nom : Summary) (w w' w'' : W)
+    (hn : SumOk new) (ho : SumOk old) (hO : 1 ≤ old.n)
+    (h : codeAccept expf c.name tol t new old nom w w' w'' = PV.bool true) (ht : t' ≤ t) :
+    codeAccept expf c.name tol t' new old nom w w' w'' = PV.bool true := by
+  rw [C10_code_accept expf c tol _ new old nom w w' w'' hn ho hO] at h ⊢
+  have h' : accept ⟨c, tol⟩ (tabOf expf) t new old nom = true := by simpa using h
+  rw [C10_mono_thr _ _ t t' new old nom h' ht]
+
+/-- code: acceptance implies the criterion's statistic of the merged cluster reaches the threshold -/
+theorem C10_code_sound (expf : Rat → Rat) (c : Crit) (tol t : Rat) (new old nom : Summary) (w w' w'' : W)
+    (hn : SumOk new) (ho : SumOk old) (hO : 1 ≤ old.n) (h2 : 2 ≤ new.n)
+    (h : codeAccept expf c.name tol t new old nom w w' w'' = PV.bool true) :
+    ∃ v, stat c new = some v ∧ t ≤ v := by
+  rw [C10_code_accept expf c tol _ new old nom w w' w'' hn ho hO] at h
+  have h' : accept ⟨c, tol⟩ (tabOf expf) t new old nom = true := by simpa using h
+  exact C10_accept_sound ⟨c, tol⟩ _ t new old nom h2 h'
+
+/-- code: never-merge rejects everything -/
+theorem C10_code_never (expf : Rat → Rat) (tol t : Rat) (new old nom : Summary) (w w' w'' : W)
+    (hn : SumOk new) (ho : SumOk old) (hO : 1 ≤ old.n) :
+    codeAccept expf "never-merge" tol t new old nom w w' w'' = PV.bool false := by
+  have := C10_code_accept expf .never tol t new old nom w w' w'' hn ho hO
+  rw [show Crit.never.name = "never-merge" from rfl] at this
+  rw [this, C10_never ⟨.never, tol⟩ _ t new old nom rfl]
+
+/-- code: a name that is none of the six raises `ValueError` -/
+theorem C10_code_unknown (expf : Rat → Rat) (name : String) (tol : Rat) (h : ∀ c : Crit, c.name ≠ name) :
+    BBGen.get_merge_accept_fn expf (PV.str name) (PV.flt (some tol)) = [PV.err "ValueError"] := by
+  rw [gen_dispatch, (C10_dispatch.2.2 name tol).mpr h]
+
+/-- the exp table of the code is antitone as soon as `np.exp` is monotone -/
+theorem tabOf_antitone (expf : Rat → Rat) (hexp : Monotone expf) : Antitone (tabOf expf).E := by
+  intro a b hab
+  apply hexp
+  unfold fmul
+  apply rnd_mono
+  have h1 : rnd (a : Rat) ≤ rnd (b : Rat) := rnd_mono (by exact_mod_cast hab)
+  have hd : (0 : Rat) ≤ decay0 := by unfold decay0; norm_num
+  nlinarith
+
+/-- code: the slack is zero for old clusters of 1000 or more (only monotonicity of `np.exp` assumed) -/
+theorem C10_code_slack_zero (expf : Rat → Rat) (hexp : Monotone expf) {tol : Rat} (h0 : 0 ≤ tol) {n : Nat}
+    (hn : 1000 ≤ n) : slack (tabOf expf) tol n = 0 :=
+  C10_slack_zero (tabOf expf) (tabOf_antitone expf hexp) (by simp [tabOf]) h0 hn
+
+/-! Non-vacuity: the summary of two identical 2-bit fingerprints is `SumOk`. -/
+example : SumOk ⟨[2, 2, 0], 2⟩ :=
+  ⟨by decide, by norm_num, by decide +kernel, by decide +kernel⟩
 
 end BB
